@@ -21,7 +21,6 @@ set_option linter.unusedVariables false
 set_option linter.unnecessarySeqFocus false
 namespace Bridge
 variable {α : Type} [Field α] [LinearOrder α] [IsStrictOrderedRing α]
-  [HasSqrt α] [HasExp α] [HasLog α] [HasSin α] [HasCos α] [HasAsin α] [HasRpow α] [HasPi α] [HasRound α] [HasFloor α]
 
 section
 open Ladim.Chemicals
@@ -30,6 +29,8 @@ theorem chem_reflect (H z : α) : reflect H z = Gen.chem_reflect z H := by
   lits
   simp [mul_neg]
 end
+
+variable [HasSqrt α] [HasFloor α]
 
 section
 open Ladim.Chemicals
